@@ -51,6 +51,15 @@ def _(v):
     uo = v.call(CU.unit_of, q)
     v.prove("unit_of", uo.u == {"u1": 1} and uo.mag == 1 and v.call(CU.unit_of, 3.5) == 1)
     v.prove("plain_number_passthrough", v.call(CU.to_unitless, 3.5, 1) == 3.5)
+    # products of powers of different symbols, with a symbol shared between quantity and target cancelling
+    ua, ub, uc, ud = (t.generic(n, dd) for n, dd in (("ua", (1, 0, 0, 0, 0, 0, 0)), ("ub", (0, 0, 1, 0, 0, 0, 0)), ("uc", (1, 0, 0, 0, 0, 0, 0)), ("ud", (0, 0, 1, 0, 0, 0, 0))))
+    sa, sb, sc, sd = (t.scale[n] for n in ("ua", "ub", "uc", "ud"))
+    rc = v.call(CU.to_unitless, m * ua ** 2 / ub, uc ** 2 / ud)
+    v.prove_identity("compound_units", rc * sc * sc * sb, m * sa * sa * sd)
+    rs_ = v.call(CU.to_unitless, m * ua ** 2 / ub, ua * uc / ub)
+    v.prove_identity("shared_symbols_cancel", rs_ * sc, m * sa)
+    a2 = v.real("a2", lo=-10, hi=10)
+    v.prove_identity("additive_across_units", v.call(CU.to_unitless, m * ua + a2 * uc, ua), m + a2 * sc / sa)
 
 
 @harness("C09", "to_unitless.incompatible_raises", functions=[U + ":to_unitless", U + ":rescale"], div_mode="assume", samples=0)
@@ -123,6 +132,10 @@ def _(v):
     v.prove("dimensional_is_not", v.call(CU.is_unitless, m * u1) is False)
     v.prove("ratio_of_same_dimension_is", bool(v.call(CU.is_unitless, (m * u1) / u2)) is True)
     v.prove("containers", v.call(CU.is_unitless, {"a": m * u1}) is False and v.call(CU.is_unitless, [m * u1 / u1]) is True)
+    # a container is unit-less iff EVERY element is (both truth values for every container type, mixed contents)
+    v.prove("mixed_containers", bool(v.call(CU.is_unitless, {"a": 1.0, "b": (m * u1) / u2})) is True and bool(v.call(CU.is_unitless, {"a": 1.0, "b": m * u1})) is False
+            and bool(v.call(CU.is_unitless, [1.0, m * u1])) is False and bool(v.call(CU.is_unitless, (1.0, (m * u1) / u2))) is True and bool(v.call(CU.is_unitless, (m * u1, 1.0))) is False
+            and bool(v.call(CU.is_unitless, [])) is True)
 
 
 @harness("C09", "get_derived_unit", functions=[U + ":get_derived_unit"], div_mode="assume", samples=0)
@@ -173,6 +186,11 @@ def _(v):
     v.prove("polyfit.units", coef[0].u == {"y1": 1, "x1": -1} and coef[1].u == {"y1": 1})
     pf_args = coef[0].mag.args[0]
     v.prove("polyfit.numpy_called_with_degree", pf_args[2] == 1 and coef[0].mag.name == "polyfit_coef")
+    # coefficient i of the result is coefficient i of numpy's result (highest power first), not a permutation of it
+    v.prove("polyfit.coefficients_in_numpys_order", [cf.mag.args[1] for cf in coef] == [0, 1] and len(coef) == 2)
+    coef2 = v.call(CU.polyfit, [a * x1, b * x2, a * x2], [c * y1, d * y2, c * y2], 2)
+    v.prove("polyfit.degree_two", len(coef2) == 3 and [cf.mag.args[1] for cf in coef2] == [0, 1, 2] and coef2[0].u == {"y1": 1, "x1": -2} and coef2[1].u == {"y1": 1, "x1": -1} and coef2[2].u == {"y1": 1}
+            and coef2[0].mag.args[0][2] == 2)
     v.prove_identity("polyfit.x_magnitudes_in_first_x_unit", pf_args[0][1] * sx1, b * sx2)
     v.prove_identity("polyfit.y_magnitudes_in_first_y_unit", pf_args[1][1] * sy1, d * sy2)
     p0, p1 = v.real("p0", lo=-5, hi=5), v.real("p1", lo=-5, hi=5)
